@@ -18,7 +18,13 @@ PROP = dict(
         dict(driver="cycles", binary="zstats", race=True, quick=24, thorough=150, shard=30, noshrink=True,
              env={"GORACE": "exitcode=0"},
              monitors=["gauge_equals_live_workers (all workers up, every Start/Stop cycle)",
-                       "gauge_zero_when_stop_returns (read in the statement after Stop(): decrement happens-before wg.Done)"]),
+                       "gauge_zero_when_stop_returns (read in the statement after Stop(): decrement happens-before wg.Done)",
+                       "exported_gauge_equals_live_workers (Prometheus gauge, workers up)",
+                       "exported_gauge_zero_when_stop_returns (Prometheus gauge)"]),
+        dict(driver="finstat", binary="zstats", race=True, quick=40, thorough=600, shard=100, noshrink=True,
+             env={"GORACE": "exitcode=0"},
+             monitors=["seeds_finished_exact (marked finished in the reactor = counted, also after Stop() with blocked hand-overs)",
+                       "finisher_stop_returns"]),
         dict(driver="archstat", binary="zstats", race=True, quick=20, thorough=400, shard=40,
              env={"GORACE": "exitcode=0"},
              monitors=["status_counts_exact (statuses archive() accepts: count = responses the origin served)",
